@@ -254,6 +254,10 @@ def rule_hub(program, ctx, prop=P, rid="C20.hub"):
     calls = [c for c in ast.walk(fn) if isinstance(c, ast.Call) and call_name(c).endswith("start_server")]
     if not calls:
         ctx.bad(finding_func(prop, rid, fn, "NotifyServer.run no longer starts the TCP server", text="def run(...) :: start_server"))
+    for c in ast.walk(fn):
+        if isinstance(c, ast.Call) and call_name(c).split(".")[-1] in ("start_unix_server", "create_unix_server"):
+            ctx.bad(finding_at(prop, rid, c, "the hub can listen on a unix socket: handle_notify keys its peer table by `peername`, which is '' for every unix-socket client - all workers "
+                               "collapse into one entry (only the last one receives ids), and start_unix_server unlinks an existing socket, so a second hub displaces the first"))
     for c in calls:
         share = [k.arg for k in c.keywords if k.arg in ("reuse_port", "reuse_address", "sock") and not (isinstance(k.value, ast.Constant) and k.value.value in (False, None))] + (["**"] if any(k.arg is None for k in c.keywords) else [])
         tr = next((a for a in ancestors(c) if isinstance(a, ast.Try)), None)
@@ -303,6 +307,29 @@ def rule_flag(program, ctx, prop=P, rid="C20.flag"):
             ctx.bad(finding_at(prop, rid, sp, "should_run_notifier no longer combines the worker count with run_notifier"))
 
 
+def rule_written_once(program, ctx, prop=P, rid="C20.once"):
+    ctx.rule(
+        rid,
+        "an id is announced once: NotifyClient.notify writes `event.id_bytes` to the hub exactly once per call - the write is not inside a loop / retry and its drain is not "
+        "cut by wait_for/timeout (a timed-out drain() does not undo the write(): the retry queues the same 32 bytes again and every other worker fans the event out twice)",
+        floor=1,
+    )
+    fn = program.func("nostr_relay.notifier:NotifyClient.notify")
+    writes = [c for c in walk_no_nested(fn) if isinstance(c, ast.Call) and isinstance(c.func, ast.Attribute) and c.func.attr == "write"]
+    if len(writes) != 1:
+        ctx.bad(finding_func(prop, rid, fn, f"NotifyClient.notify has {len(writes)} writes to the hub (expected exactly one)", text="def notify(...) :: writes"))
+    for c in writes:
+        if any(isinstance(a, (ast.For, ast.While, ast.AsyncFor)) for a in ancestors(c) if any(a is y for y in ast.walk(fn))):
+            ctx.bad(finding_at(prop, rid, c, "the id is written inside a loop: a retry after a slow drain() sends the same id again - peers fan the event out more than once"))
+        elif not (c.args and ast.unparse(c.args[0]).endswith("id_bytes")):
+            ctx.bad(finding_at(prop, rid, c, f"the announcement writes `{ast.unparse(c.args[0])[:40] if c.args else ''}`, not the event's 32 id bytes"))
+        else:
+            ctx.ok(rid, c, "one write of event.id_bytes per call")
+    for c in walk_no_nested(fn):
+        if isinstance(c, ast.Call) and call_name(c).split(".")[-1] in ("wait_for", "timeout") and "drain" in ast.unparse(c):
+            ctx.bad(finding_at(prop, rid, c, "drain() is cut by a timeout: the bytes already handed to the transport are sent anyway"))
+
+
 def rule_unregister(program, ctx, prop=P, rid="C20.unregister"):
     ctx.rule(
         rid,
@@ -349,6 +376,7 @@ def run(program, ctx):
     rule_hub(program, ctx)
     rule_flag(program, ctx)
     rule_unregister(program, ctx)
+    rule_written_once(program, ctx)
     from . import c06
 
     c06.rule_reap(program, ctx, prop=P, rid="C20.reap")
